@@ -8,6 +8,11 @@
 //       DIST = rr (round robin) | rnd (Random<0>) | last (all rows on the last shard) | first
 //       ROWS = comma list of row values (decimal)
 //     -> `ok consistent=1 rows=<sorted reconstructed rows>` | `err …` | `timeout` | `panic:…`
+//   c05.card MODE 32 SHARDS DIST SEED N D12 D31 D23
+//       the real shuffle of the N rows 1..=N; D12/D31/D23 = the PRSS destinations `pick_shard(i, direction)`
+//       of the three permutation rounds as observed on the real contexts of a world with the same seed
+//       (per shard a string of N digits, shards separated by `/`)
+//     -> `ok h1=<rows per shard> h2=<…> h3=<…>` (output table sizes of the three helpers) | `err …`
 //   c05.tags BITS KEYS ROWS EXPECT
 //       KEYS = ⌈BITS/32⌉ revealed MAC keys (decimal Gf32Bit), ROWS = hex of serialized ShareAndTag rows,
 //       EXPECT = Σ keyᵢ·wordᵢ + tag per row, computed by the generator with plain Gf32Bit operations
@@ -34,9 +39,9 @@ use crate::{
         Field, Gf32Bit, Serializable, U128Conversions,
         boolean_array::{BA32, BA64, BA96, BA112, BA144},
     },
-    helpers::{Role, hashing::compute_possibly_empty_hash, in_memory_config::MaliciousHelper},
+    helpers::{Direction, Role, hashing::compute_possibly_empty_hash, in_memory_config::MaliciousHelper},
     ipa_verif::proto::*,
-    protocol::{context::Context as _, ipa_prf::shuffle::step::ShardedShuffleStep},
+    protocol::{RecordId, context::{Context as _, ShardedContext}, ipa_prf::shuffle::step::ShardedShuffleStep},
     secret_sharing::{SharedValue, replicated::{ReplicatedSecretSharing, semi_honest::AdditiveShare}},
     test_fixture::{
         Distribute, RandomInputDistribution, Reconstruct, RoundRobinInputDistribution, Runner,
@@ -155,6 +160,126 @@ macro_rules! c05_dispatch_e2e {
             (s, d) => panic!("harness: unsupported shards/distribution {s}/{d}"),
         }
     };
+}
+
+/// `pick_shard(RecordId(i), direction)` for `i < nmax` on the three permutation steps, with the direction
+/// this helper uses in `h{1,2,3}_shuffle_for_shard` (empty for the step it takes no part in).
+fn c05_dests_of<C: ShardedContext>(ctx: &C, nmax: usize) -> Vec<Vec<u8>> {
+    let plan: [Option<Direction>; 3] = match ctx.role() {
+        Role::H1 => [Some(Direction::Right), Some(Direction::Left), None],
+        Role::H2 => [Some(Direction::Left), None, Some(Direction::Right)],
+        Role::H3 => [None, Some(Direction::Right), Some(Direction::Left)],
+    };
+    let steps = [ShardedShuffleStep::Permute12, ShardedShuffleStep::Permute31, ShardedShuffleStep::Permute23];
+    plan.iter()
+        .zip(steps.iter())
+        .map(|(dir, step)| match dir {
+            None => vec![],
+            Some(d) => {
+                let c = ctx.narrow(step);
+                (0..nmax).map(|i| u8::try_from(u32::from(c.pick_shard(RecordId::from(i), *d))).unwrap()).collect()
+            }
+        })
+        .collect()
+}
+
+/// Destinations `[round 12, 31, 23][shard][index]` of a world with this seed (its first protocol run).
+async fn c05_probe_dests<const SHARDS: usize, D: Distribute>(malicious: bool, seed: u64, nmax: usize) -> [Vec<Vec<u8>>; 3] {
+    let config = TestWorldConfig::default().with_seed(seed);
+    let world = TestWorld::<WithShards<SHARDS, D>>::with_shards(config);
+    let input: Vec<BA32> = vec![];
+    let r: Vec<[Vec<Vec<u8>>; 3]> = if malicious {
+        world
+            .malicious(input.into_iter(), |ctx, _shares: Vec<AdditiveShare<BA32>>| async move { c05_dests_of(&ctx, nmax) })
+            .await
+    } else {
+        world
+            .semi_honest(input.into_iter(), |ctx, _shares: Vec<AdditiveShare<BA32>>| async move { c05_dests_of(&ctx, nmax) })
+            .await
+    };
+    // round 12 and 31 as H1 sees them, round 23 as H2 sees it
+    [
+        r.iter().map(|per_helper| per_helper[0][0].clone()).collect(),
+        r.iter().map(|per_helper| per_helper[0][1].clone()).collect(),
+        r.iter().map(|per_helper| per_helper[1][2].clone()).collect(),
+    ]
+}
+
+fn c05_route_shape(shape: &[usize], dest: &[Vec<u8>]) -> Vec<usize> {
+    let mut out = vec![0usize; shape.len()];
+    for (j, &n) in shape.iter().enumerate() {
+        for i in 0..n {
+            out[usize::from(dest[j][i])] += 1;
+        }
+    }
+    out
+}
+
+/// Round-robin input of `n` rows on 2 shards whose shuffle output on some shard is exactly `target`
+/// rows: searches `n` around `2·target` with the real PRSS destinations of a world seeded with `seed`.
+fn c05_find_exact_output(malicious: bool, seed: u64, target: usize) -> Option<(usize, [Vec<Vec<u8>>; 3])> {
+    let nmax = 2 * target + 800;
+    let dests = block_on_timeout(60, c05_probe_dests::<2, RoundRobinInputDistribution>(malicious, seed, nmax)).ok()?;
+    for k in 0..1600usize {
+        let n = if k % 2 == 0 { 2 * target + k / 2 } else { 2 * target - k.div_ceil(2) };
+        let input = [n.div_ceil(2), n / 2];
+        let out = c05_route_shape(&c05_route_shape(&c05_route_shape(&input, &dests[0]), &dests[1]), &dests[2]);
+        if out.contains(&target) {
+            return Some((n, dests));
+        }
+    }
+    None
+}
+
+fn c05_dest_token(d: &[Vec<u8>], n: usize) -> String {
+    d.iter()
+        .map(|v| v.iter().take(n).map(|&x| char::from(b'0' + x)).collect::<String>())
+        .collect::<Vec<_>>()
+        .join("/")
+}
+
+async fn c05_card_32<const SHARDS: usize, D: Distribute>(malicious: bool, seed: u64, n: usize) -> String {
+    let config = TestWorldConfig::default().with_seed(seed);
+    let world = TestWorld::<WithShards<SHARDS, D>>::with_shards(config);
+    let input: Vec<BA32> = (0..n).map(|i| BA32::truncate_from(i as u128 + 1)).collect();
+    let results: Vec<[Result<Vec<AdditiveShare<BA32>>, crate::error::Error>; 3]> = if malicious {
+        world
+            .malicious(input.into_iter(), |ctx, shares| async move { ctx.sharded_shuffle(shares).await })
+            .await
+    } else {
+        world
+            .semi_honest(input.into_iter(), |ctx, shares| async move { ctx.sharded_shuffle(shares).await })
+            .await
+    };
+    let mut sizes: [Vec<usize>; 3] = [vec![], vec![], vec![]];
+    for (s, per_helper) in results.iter().enumerate() {
+        for (h, r) in per_helper.iter().enumerate() {
+            match r {
+                Ok(t) => sizes[h].push(t.len()),
+                Err(e) => return format!("err shard{s}/H{} {}", h + 1, c05_err_kind(e)),
+            }
+        }
+    }
+    format!("ok h1={} h2={} h3={}", nat_list(&sizes[0]), nat_list(&sizes[1]), nat_list(&sizes[2]))
+}
+
+fn c05_exec_card(t: &[&str]) -> String {
+    let mal = match t[1] {
+        "sh" => false,
+        "mal" => true,
+        m => panic!("harness: unknown mode {m}"),
+    };
+    assert_eq!(t[2], "32", "harness: c05.card is instantiated for BA32");
+    let seed: u64 = t[5].parse().unwrap();
+    let n: usize = t[6].parse().unwrap();
+    match (t[3], t[4]) {
+        ("1", "rr") => c05_run(60, c05_card_32::<1, RoundRobinInputDistribution>(mal, seed, n)),
+        ("2", "rr") => c05_run(60, c05_card_32::<2, RoundRobinInputDistribution>(mal, seed, n)),
+        ("3", "rr") => c05_run(60, c05_card_32::<3, RoundRobinInputDistribution>(mal, seed, n)),
+        ("2", "last") => c05_run(60, c05_card_32::<2, C05LastShard>(mal, seed, n)),
+        ("3", "first") => c05_run(60, c05_card_32::<3, C05FirstShard>(mal, seed, n)),
+        (s, d) => panic!("harness: unsupported shards/distribution {s}/{d}"),
+    }
 }
 
 fn c05_exec_e2e(t: &[&str]) -> String {
@@ -365,6 +490,7 @@ pub fn c05_exec(req: &str) -> String {
     let t: Vec<&str> = req.split(' ').collect();
     match t[0] {
         "c05.e2e" => c05_exec_e2e(&t),
+        "c05.card" => c05_exec_card(&t),
         "c05.tags" => c05_exec_tags(&t),
         "c05.addtags" => c05_exec_addtags(&t),
         "c05.tamper" => c05_exec_tamper(&t),
@@ -419,6 +545,72 @@ fn c05_gen_e2e(rng: &mut Rng, thorough: bool) -> Vec<String> {
             push("sh", bits, shards, dist, rng.next_u64(), &rows);
         }
     }
+    // row counts around every power of two and around multiples of 4096 (table slices / stream chunks)
+    // up to 2·4096 + 1 on ONE shard: the cardinality H2 announces to H1 is then exactly the row count
+    for k in 1..=13u32 {
+        for n in [(1usize << k) - 1, 1 << k, (1 << k) + 1] {
+            if n <= 9 {
+                continue; // covered above
+            }
+            let big = n >= 1000;
+            let rows = c05_rows(rng, 32, n, if big { 2 } else { 4 });
+            push("sh", 32, 1, "rr", rng.next_u64(), &rows);
+            if thorough || !big || n == 4096 {
+                push("mal", 32, 1, "rr", rng.next_u64(), &rows);
+            }
+        }
+    }
+    // the cardinality message against the model's routing, with the observed PRSS destinations: small
+    // shapes on 1-3 shards, then 2 shards where one shard's OUTPUT is exactly 4096 rows (found by a search
+    // over the row count with the real destinations of the world's seed)
+    let mut extra: Vec<String> = vec![];
+    let mut card = |mode: &str, shards: usize, dist: &str, seed: u64, n: usize, dests: Option<[Vec<Vec<u8>>; 3]>| {
+        let mal = mode == "mal";
+        let d = match dests {
+            Some(d) => Some(d),
+            None => match (shards, dist) {
+                (1, "rr") => block_on_timeout(60, c05_probe_dests::<1, RoundRobinInputDistribution>(mal, seed, n)).ok(),
+                (2, "rr") => block_on_timeout(60, c05_probe_dests::<2, RoundRobinInputDistribution>(mal, seed, n)).ok(),
+                (3, "rr") => block_on_timeout(60, c05_probe_dests::<3, RoundRobinInputDistribution>(mal, seed, n)).ok(),
+                (2, "last") => block_on_timeout(60, c05_probe_dests::<2, C05LastShard>(mal, seed, n)).ok(),
+                (3, "first") => block_on_timeout(60, c05_probe_dests::<3, C05FirstShard>(mal, seed, n)).ok(),
+                (s, d) => panic!("harness: unsupported shards/distribution {s}/{d}"),
+            },
+        };
+        let d = d.expect("harness: destination probe did not complete");
+        let tok = |r: &Vec<Vec<u8>>| if n == 0 { vec!["-"; shards].join("/") } else { c05_dest_token(r, n) };
+        extra.push(format!("c05.card {mode} 32 {shards} {dist} {seed} {n} {} {} {}", tok(&d[0]), tok(&d[1]), tok(&d[2])));
+    };
+    for &(shards, dist, n) in &[(1usize, "rr", 0usize), (1, "rr", 5), (2, "rr", 1), (2, "rr", 9), (2, "last", 7), (3, "rr", 2), (3, "first", 10), (3, "rr", 100), (2, "rr", 1000)] {
+        let seed = rng.next_u64();
+        card("sh", shards, dist, seed, n, None);
+        if thorough || n <= 10 {
+            card("mal", shards, dist, rng.next_u64(), n, None);
+        }
+    }
+    for mode in ["sh", "mal"] {
+        if mode == "mal" && !thorough {
+            continue;
+        }
+        let mut found = None;
+        for _ in 0..4 {
+            let seed = rng.next_u64();
+            if let Some((n, dests)) = c05_find_exact_output(mode == "mal", seed, 4096) {
+                found = Some((seed, n, dests));
+                break;
+            }
+        }
+        let (seed, n, dests) = found.expect("harness: no row count with a 4096-row shard output found");
+        card(mode, 2, "rr", seed, n, Some(dests));
+        let rows = c05_rows(rng, 32, n, 2);
+        push(mode, 32, 2, "rr", seed, &rows);
+    }
+    for n in [3 * 4096usize, 1000, 10_000] {
+        if thorough || n == 1000 {
+            let rows = c05_rows(rng, 32, n, 2);
+            push("sh", 32, 1, "rr", rng.next_u64(), &rows);
+        }
+    }
     for _ in 0..(if thorough { 200 } else { 30 }) {
         let bits = *rng.pick(&[32u32, 64, 112]);
         let shards = 1 + rng.usize_below(3);
@@ -428,6 +620,7 @@ fn c05_gen_e2e(rng: &mut Rng, thorough: bool) -> Vec<String> {
         let rows = c05_rows(rng, bits, n, style);
         push(*rng.pick(&["sh", "mal"]), bits, shards, dist, rng.next_u64(), &rows);
     }
+    out.extend(extra);
     out
 }
 
